@@ -27,7 +27,8 @@ are whatever the standard library says they are).
 
 ``compare`` checks an observation against the fold without pinning the
 wording of any built-in template: exact text is compared only where the
-caller supplied the format string (the marker format).
+caller supplied the format string (any string: a marker format, the empty
+string, a format without placeholders ...).
 """
 
 import json
@@ -150,6 +151,79 @@ def _collapse(seq):
     return out
 
 
+def _all_finds(text, what, start):
+    out = []
+    i = text.find(what, start)
+    while i >= 0:
+        out.append(i)
+        i = text.find(what, i + 1)
+    return out
+
+
+def _match_exact(exp, stderr, fmt, all_tokens):
+    """The caller supplied the format (any string, the empty one included), so stderr is known
+    exactly except for the wording of the diagnostics: it has to be, in order, ``fmt`` applied to
+    every error the library reports, and between those, for every run of unreadable files, a
+    stretch of text that mentions exactly those files, each once, in order (and no other file).
+    After an instance on which the library raises nothing is claimed.
+    The stretch for a run ends where the next expected text begins; where that is ambiguous
+    (a format like "0" may also occur inside a diagnostic) every possibility is tried."""
+    parts = []          # ("lit", text) | ("gap", [tokens]) | ("any",)
+    for it in exp["items"]:
+        if it[0] == "errs":
+            text = "".join(fmt.format(error=e) for e in it[1])
+            if text:
+                if parts and parts[-1][0] == "lit":
+                    parts[-1] = ("lit", parts[-1][1] + text)
+                else:
+                    parts.append(("lit", text))
+        elif it[0] == "diag":
+            if parts and parts[-1][0] == "gap":
+                parts[-1][1].append(it[1])
+            else:
+                parts.append(("gap", [it[1]]))
+        elif it[0] == "crash":
+            parts.append(("any",))
+            break
+    best = [0, 0]       # furthest part reached, and where
+    memo = {}
+
+    def go(i, pos):
+        key = (i, pos)
+        if key in memo:
+            return memo[key]
+        if [i, pos] > best:
+            best[:] = [i, pos]
+        if i == len(parts):
+            ok = pos == len(stderr)
+        elif parts[i][0] == "any":
+            ok = True
+        elif parts[i][0] == "lit":
+            ok = stderr.startswith(parts[i][1], pos) and go(i + 1, pos + len(parts[i][1]))
+        else:
+            run = parts[i][1]
+            if i + 1 < len(parts) and parts[i + 1][0] == "any":     # a traceback may follow and mention more files
+                ok = _occurrences(stderr[pos:], all_tokens)[:len(run)] == run
+            else:
+                ends = [len(stderr)] if i + 1 == len(parts) else _all_finds(stderr, parts[i + 1][1], pos)
+                ok = any(_occurrences(stderr[pos:e], all_tokens) == run and go(i + 1, e) for e in ends)
+        memo[key] = ok
+        return ok
+
+    if go(0, 0):
+        return None
+    i, pos = best
+    if i >= len(parts):
+        return ("stderr-extra-output", {"extra": stderr[pos:pos + 300], "expected_fold": coarse(exp)})
+    if parts[i][0] == "lit":
+        return ("stderr-marker", {"at": pos, "expected_next": parts[i][1][:300],
+                                  "observed_next": stderr[pos:pos + len(parts[i][1]) + 40][:400],
+                                  "expected_fold": coarse(exp)})
+    return ("stderr-diagnostics", {"expected_one_diagnostic_each_for": parts[i][1],
+                                   "files_mentioned": _occurrences(stderr[pos:], all_tokens),
+                                   "segment": stderr[pos:pos + 300], "expected_fold": coarse(exp)})
+
+
 def compare(exp, obs, out, fmt, all_tokens):
     """obs: dict(status=int or None, raised=type name or None, stdout, stderr).
     out: 'plain' | 'pretty'; fmt: the marker format string or None.
@@ -213,53 +287,7 @@ def compare(exp, obs, out, fmt, all_tokens):
 
     # ---- stderr --------------------------------------------------------------
     if fmt is not None:
-        # exact: markers compared literally; between markers only diagnostics,
-        # one per unreadable file, mentioning that file exactly once, in order
-        marker_open = fmt.split("{", 1)[0]
-        pos = 0
-        i = 0
-        items = exp["items"]
-        while i < len(items):
-            it = items[i]
-            if it[0] == "errs":
-                for e in it[1]:
-                    want = fmt.format(error=e)
-                    if not stderr.startswith(want, pos):
-                        return ("stderr-marker", {"at": pos, "expected_next": want,
-                                                  "observed_next": stderr[pos:pos + len(want) + 40],
-                                                  "expected_fold": coarse(exp)})
-                    pos += len(want)
-                i += 1
-            elif it[0] == "ok":
-                i += 1
-            elif it[0] == "crash":
-                break       # a traceback may or may not follow; nothing claimed
-            else:
-                run = []
-                while i < len(items) and items[i][0] in ("diag", "ok"):
-                    if items[i][0] == "diag":
-                        run.append(items[i][1])
-                    i += 1
-                nxt = stderr.find(marker_open, pos)
-                if i < len(items) and items[i][0] == "crash":
-                    seg_end = nxt if nxt >= 0 else len(stderr)
-                    seg = stderr[pos:seg_end]
-                    seen = _occurrences(seg, all_tokens)
-                    if seen[:len(run)] != run:
-                        return ("stderr-diagnostics", {"expected_files": run, "files_mentioned": seen})
-                    pos = seg_end
-                    continue
-                seg_end = nxt if nxt >= 0 else len(stderr)
-                seg = stderr[pos:seg_end]
-                seen = _occurrences(seg, all_tokens)
-                if seen != run:
-                    return ("stderr-diagnostics", {"expected_one_diagnostic_each_for": run,
-                                                   "files_mentioned": seen, "segment": seg[:300],
-                                                   "expected_fold": coarse(exp)})
-                pos = seg_end
-        if not crash and pos != len(stderr):
-            return ("stderr-extra-output", {"extra": stderr[pos:pos + 300], "expected_fold": coarse(exp)})
-        return None
+        return _match_exact(exp, stderr, fmt, all_tokens)
 
     # built-in templates: wording not pinned.  Every expected error message
     # and every unreadable file must show up, in order; counts must match.
